@@ -88,7 +88,7 @@ def check_suggestions(part, reg, ldims, rdims, err, wit):
 def judge(part, probe, reg, query, lv, rv, tag, roundtrip=None):
     """lv, rv: reference Val of source and target (exact) or None when the reference abstains."""
     part.evaluations += 1
-    r = probe.eval(query, timeout=30)
+    r = probe.eval(query, timeout=30, spans=False, json=False)
     if "timeout" in r or "died" in r:
         r = probe.eval(query, timeout=90)
         if "timeout" in r or "died" in r:
